@@ -304,7 +304,8 @@ ASMJIT_FAVOR_SIZE Error init_func_detail(FuncDetail& func, const FuncSignature& 
 
         case TypeId::kFloat32:
         case TypeId::kFloat64: {
-          RegType reg_type = Environment::is_32bit(arch) ? RegType::kX86_St : RegType::kVec128;
+          // 32-bit conventions return floats by FP0, except VectorCall, which returns them by XMM0.
+          RegType reg_type = Environment::is_32bit(arch) && cc.id() != CallConvId::kVectorCall ? RegType::kX86_St : RegType::kVec128;
           func._rets[value_index].init_reg(reg_type, value_index, type_id);
           break;
         }
